@@ -254,6 +254,91 @@ theorem c13s_batch_whole_messages {α} {s s' : SOV α} (hr : SReach s) (i : Nat)
     · cases e
       right; rw [hv, ← hm]
 
+/-- receiver `i`'s `poll_next` run to its return with nothing happening in between (fuel = receive operations allowed) -/
+def SOV.pollRun {α} (s : SOV α) (i : Nat) : Nat → Option (Item α × SOV α)
+  | 0 => none
+  | f + 1 =>
+    match s.micro i with
+    | none => none
+    | some (_, some it, s') => some (it, s')
+    | some (_, none, s') => s'.pollRun i f
+
+/-- **Progress of one receive operation**: it either makes `poll_next` return, or moves the cursor strictly forward
+    (an `Ok` by one message, a `Lagged` to the oldest retained one) — log and contents untouched. -/
+theorem micro_progress {α} (s : SOV α) (i : Nat) (r : Sub α) (hs : s.ov.subs[i]? = some r) (ha : r.alive = true)
+    (hn : r.next ≤ s.ov.log.length) :
+    ∃ k it s', s.micro i = some (k, it, s') ∧ s'.ov.log = s.ov.log ∧
+      (it = none → ∃ r', s'.ov.subs[i]? = some r' ∧ r'.alive = true ∧ r.next < r'.next ∧ r'.next ≤ s.ov.log.length) := by
+  have hil : i < s.ov.subs.length := by
+    rcases List.getElem?_eq_some_iff.mp hs with ⟨g, _⟩; exact g
+  have hput : ∀ (r' : Sub α) (p : Phase α), (s.put i r' p).ov.subs[i]? = some r' ∧ (s.put i r' p).ov.log = s.ov.log := by
+    intro r' p; simp [SOV.put, hil]
+  unfold SOV.micro
+  simp only [hs, ha, Bool.not_true, Bool.false_eq_true, if_false]
+  rcases tryRecv_cases s.ov.B s.ov.log (!s.ov.alive) r.next hn with ⟨m, ht, hm, hlt, hnl⟩ | ⟨ht, hl⟩ | ⟨ht, hc, hne⟩ | ⟨ht, hc, hne⟩
+  all_goals (cases hp : s.ph i with
+    | idle =>
+      simp only []
+      cases hr : r.rest with
+      | cons d ds =>
+        refine ⟨_, _, _, rfl, (hput _ _).2, ?_⟩
+        intro h; cases h
+      | nil =>
+        simp only [ht]
+        first
+        | (refine ⟨_, _, _, rfl, (hput _ _).2, ?_⟩
+           first
+           | (intro h; cases h; done)
+           | (intro _; exact ⟨_, (hput _ _).1, by first | rfl | exact ha, by simp <;> omega, by simp <;> omega⟩))
+        | (cases hb : r.batched with
+           | true =>
+             simp only [if_true]
+             refine ⟨_, _, _, rfl, (hput _ _).2, ?_⟩
+             intro _; exact ⟨_, (hput _ _).1, by first | rfl | exact ha, by simp, by simp; omega⟩
+           | false =>
+             simp only [Bool.false_eq_true, if_false]
+             cases hmd : m.diffs with
+             | nil => refine ⟨_, _, _, rfl, (hput _ _).2, ?_⟩; intro h; cases h
+             | cons d ds => refine ⟨_, _, _, rfl, (hput _ _).2, ?_⟩; intro h; cases h)
+    | drain acc shown =>
+      simp only [ht]
+      refine ⟨_, _, _, rfl, (hput _ _).2, ?_⟩
+      first
+      | (intro h; cases h; done)
+      | (intro _; exact ⟨_, (hput _ _).1, by first | rfl | exact ha, by simp <;> omega, by simp <;> omega⟩)
+    | lag msg =>
+      simp only [ht]
+      first
+      | (refine ⟨_, _, _, rfl, (hput _ _).2, ?_⟩
+         first
+         | (intro h; cases h; done)
+         | (intro _; exact ⟨_, (hput _ _).1, by first | rfl | exact ha, by simp <;> omega, by simp <;> omega⟩))
+      | (cases msg <;> (refine ⟨_, _, _, rfl, (hput _ _).2, ?_⟩; intro h; cases h)))
+
+/-- **Every `poll_next` returns**: with nothing new being published it takes at most one receive operation per pending
+    message plus one — the drain loop and `handle_lag` cannot spin (the "Lagged twice in a row" arm of `handle_lag`
+    moves the cursor forward each time, so it too is left after finitely many rounds once the writer pauses). -/
+theorem poll_terminates {α} (n : Nat) : ∀ (s : SOV α) (i : Nat) (r : Sub α), s.ov.subs[i]? = some r → r.alive = true →
+    r.next ≤ s.ov.log.length → s.ov.log.length - r.next ≤ n → ∃ it s', s.pollRun i (n + 1) = some (it, s') := by
+  induction n with
+  | zero =>
+    intro s i r hs ha hn hm
+    obtain ⟨k, it, s', h1, h2, h3⟩ := micro_progress s i r hs ha hn
+    cases it with
+    | some it => exact ⟨it, s', by simp [SOV.pollRun, h1]⟩
+    | none =>
+      obtain ⟨r', _, _, g1, g2⟩ := h3 rfl
+      omega
+  | succ n ih =>
+    intro s i r hs ha hn hm
+    obtain ⟨k, it, s', h1, h2, h3⟩ := micro_progress s i r hs ha hn
+    cases it with
+    | some it => exact ⟨it, s', by simp [SOV.pollRun, h1]⟩
+    | none =>
+      obtain ⟨r', e1, e2, g1, g2⟩ := h3 rfl
+      obtain ⟨it, s'', hrun⟩ := ih s' i r' e1 e2 (by rw [h2]; exact g2) (by rw [h2]; omega)
+      exact ⟨it, s'', by simp only [SOV.pollRun, h1]; exact hrun⟩
+
 /-- the interleaved run of the witness below: capacity 1 (window 1), a batched receiver, one update queued; then the
     receive operations of ONE `poll_next` with three more updates in between -/
 def witnessRun : SOV Nat :=
